@@ -530,13 +530,13 @@ class Collection(object):
         if '_id' not in data:
             data['_id'] = ObjectId()
 
+        data = helpers.patch_datetime_awareness_in_document(data)
+
         object_id = data['_id']
         if isinstance(object_id, dict):
             object_id = helpers.hashdict(object_id)
         if object_id in self._store:
             raise DuplicateKeyError('E11000 Duplicate Key Error', 11000)
-
-        data = helpers.patch_datetime_awareness_in_document(data)
 
         self._store[object_id] = data
         try:
